@@ -153,6 +153,17 @@ pub trait SubRunner: Send + Sync {
     fn replay(&self, case: Value) -> Result<CaseOut, String>;
 }
 
+/// crash isolation: with VERIF_JOURNAL=<file> every case is written to that file before it runs (and the run is
+/// sequential), so that a case which kills the whole process (abort, stack overflow, heap corruption) can be named
+fn journal<V: Serialize>(prop: &str, sub: &str, v: &V) {
+    static PATH: std::sync::OnceLock<Option<String>> = std::sync::OnceLock::new();
+    let path = PATH.get_or_init(|| std::env::var("VERIF_JOURNAL").ok());
+    if let Some(p) = path {
+        let body = json!({"property": prop, "sub": sub, "case": serde_json::to_value(v).unwrap_or(Value::Null)});
+        let _ = std::fs::write(p, body.to_string());
+    }
+}
+
 /// run `check` with panic capture; every panic on this thread (including inside tasks of a
 /// current-thread runtime driven by the check) becomes a failure
 pub fn guarded<V>(check: fn(&V, &mut CaseOut), v: &V) -> CaseOut {
@@ -337,6 +348,7 @@ where
                 for (i, v) in chunk_cases.iter().enumerate() {
                     let vc = v.clone();
                     watch_begin(Box::new(move || serde_json::to_string(&vc).unwrap_or_default()));
+                    journal(ctx.prop, self.name, v);
                     let out = guarded(check, v);
                     watch_end();
                     stats.record(v, &out, &ctx.known);
@@ -391,6 +403,7 @@ where
                 let res = runner.run(&strategy, |v| {
                     let vc = v.clone();
                     watch_begin(Box::new(move || serde_json::to_string(&vc).unwrap_or_default()));
+                    journal(ctx.prop, self.name, &v);
                     let out = guarded(check, &v);
                     watch_end();
                     if !failed.get() {
